@@ -46,6 +46,10 @@ func verifSchemaSA() *schema.BodySchema {
 				schema.LiteralValue{Value: cty.StringVal("ab")},
 				schema.Keyword{Keyword: "kwd"},
 			}),
+			"onerefs": verifOpt(schema.OneOf{
+				schema.List{Elem: schema.Reference{OfType: cty.String}},
+				schema.List{Elem: schema.Reference{OfType: cty.Number}},
+			}),
 			"astr":  verifOpt(schema.AnyExpression{OfType: cty.String}),
 			"anum":  verifOpt(schema.AnyExpression{OfType: cty.Number}),
 			"abool": verifOpt(schema.AnyExpression{OfType: cty.Bool}),
@@ -168,10 +172,68 @@ func verifResDepEntries() []verifDepEntry {
 	}
 }
 
+// the dependent bodies of "be": two levels - by label, then by label and the "backend" attribute
+// which the first-level body declares as a key; every body has its own documentation link.
+func verifBeDepEntries() []verifDepEntry {
+	str := schema.LiteralType{Type: cty.String}
+	s3 := []schema.LabelDependent{{Index: 0, Value: "s3"}}
+	return []verifDepEntry{
+		{schema.DependencyKeys{Labels: s3}, &schema.BodySchema{
+			Attributes: map[string]*schema.AttributeSchema{"backend": {Constraint: str, IsOptional: true, IsDepKey: true}, "bucket": {Constraint: str, IsOptional: true}},
+			DocsLink:   &schema.DocsLink{URL: "https://example.com/s3"},
+			Detail:     "s3 first level",
+		}},
+		{schema.DependencyKeys{Labels: s3, Attributes: []schema.AttributeDependent{{Name: "backend", Expr: schema.ExpressionValue{Static: cty.StringVal("special")}}}}, &schema.BodySchema{
+			Attributes: map[string]*schema.AttributeSchema{"backend": {Constraint: str, IsOptional: true, IsDepKey: true}, "special_opt": {Constraint: str, IsOptional: true}},
+			DocsLink:   &schema.DocsLink{URL: "https://example.com/s3/special"},
+			Detail:     "s3 special",
+		}},
+	}
+}
+
+// the dependent bodies of "two": selected by two attributes of the static body, one of which has a default
+func verifTwoDepEntries() []verifDepEntry {
+	str := schema.LiteralType{Type: cty.String}
+	kv := func(k, m string) []schema.AttributeDependent {
+		return []schema.AttributeDependent{
+			{Name: "kind", Expr: schema.ExpressionValue{Static: cty.StringVal(k)}},
+			{Name: "mode", Expr: schema.ExpressionValue{Static: cty.StringVal(m)}},
+		}
+	}
+	return []verifDepEntry{
+		{schema.DependencyKeys{Attributes: kv("a", "b")}, &schema.BodySchema{
+			Attributes: map[string]*schema.AttributeSchema{"ab_opt": {Constraint: str, IsOptional: true}},
+			DocsLink:   &schema.DocsLink{URL: "https://example.com/two/ab"},
+		}},
+		{schema.DependencyKeys{Attributes: kv("a", "c")}, &schema.BodySchema{
+			Attributes: map[string]*schema.AttributeSchema{"ac_opt": {Constraint: str, IsOptional: true}},
+			DocsLink:   &schema.DocsLink{URL: "https://example.com/two/ac"},
+		}},
+	}
+}
+
+func verifModDepEntries() []verifDepEntry {
+	return []verifDepEntry{
+		{schema.DependencyKeys{Attributes: []schema.AttributeDependent{{Name: "source", Expr: schema.ExpressionValue{Static: cty.StringVal("./m")}}}}, &schema.BodySchema{
+			Attributes: map[string]*schema.AttributeSchema{"input": {Constraint: schema.AnyExpression{OfType: cty.String}, IsOptional: true}},
+		}},
+		{schema.DependencyKeys{Attributes: []schema.AttributeDependent{{Name: "source", Expr: schema.ExpressionValue{Static: cty.StringVal("./n")}}}}, &schema.BodySchema{
+			Attributes: map[string]*schema.AttributeSchema{"other": {Constraint: schema.AnyExpression{OfType: cty.String}, IsRequired: true}},
+		}},
+	}
+}
+
 // verifDepEntriesOf: the dependent-body entries of a top-level block type of SB (nil: not listed).
 func verifDepEntriesOf(blockType string) []verifDepEntry {
-	if blockType == "res" {
+	switch blockType {
+	case "res":
 		return verifResDepEntries()
+	case "be":
+		return verifBeDepEntries()
+	case "two":
+		return verifTwoDepEntries()
+	case "mod":
+		return verifModDepEntries()
 	}
 	return nil
 }
@@ -206,11 +268,32 @@ func verifSchemaSB() *schema.BodySchema {
 				Body: &schema.BodySchema{Attributes: map[string]*schema.AttributeSchema{
 					"source": {Constraint: str, IsRequired: true, IsDepKey: true},
 				}},
-				DependentBody: map[schema.SchemaKey]*schema.BodySchema{
-					schema.NewSchemaKey(schema.DependencyKeys{Attributes: []schema.AttributeDependent{{Name: "source", Expr: schema.ExpressionValue{Static: cty.StringVal("./m")}}}}): {
-						Attributes: map[string]*schema.AttributeSchema{"input": {Constraint: schema.AnyExpression{OfType: cty.String}, IsOptional: true}},
+				DependentBody: verifDepMap(verifModDepEntries()),
+			},
+			// any-attribute body that also declares a nested block type
+			"opt": {
+				Labels: []*schema.LabelSchema{{Name: "name"}},
+				Body: &schema.BodySchema{
+					AnyAttribute: &schema.AttributeSchema{Constraint: schema.AnyExpression{OfType: cty.DynamicPseudoType}, IsOptional: true,
+						Address: &schema.AttributeAddrSchema{Steps: schema.Address{schema.StaticStep{Name: "opt"}, schema.AttrNameStep{}}, ScopeId: lang.ScopeId("opt"), AsExprType: true, AsReference: true}},
+					Blocks: map[string]*schema.BlockSchema{
+						"member": {Body: &schema.BodySchema{Attributes: map[string]*schema.AttributeSchema{"who": {Constraint: schema.AnyExpression{OfType: cty.String}, IsOptional: true}}}},
 					},
 				},
+			},
+			// two levels of dependent bodies
+			"be": {
+				Labels:        []*schema.LabelSchema{{Name: "type", IsDepKey: true}},
+				Body:          &schema.BodySchema{Attributes: map[string]*schema.AttributeSchema{"note": {Constraint: str, IsOptional: true}}},
+				DependentBody: verifDepMap(verifBeDepEntries()),
+			},
+			// two attribute keys, one with a default value
+			"two": {
+				Body: &schema.BodySchema{Attributes: map[string]*schema.AttributeSchema{
+					"kind": {Constraint: str, IsOptional: true, IsDepKey: true},
+					"mode": {Constraint: str, IsOptional: true, IsDepKey: true, DefaultValue: schema.DefaultValue{Value: cty.StringVal("b")}},
+				}},
+				DependentBody: verifDepMap(verifTwoDepEntries()),
 			},
 			// address steps taken from an attribute value, optional and mandatory
 			"pv": {
@@ -249,7 +332,10 @@ func verifSchemaSB() *schema.BodySchema {
 				Labels: []*schema.LabelSchema{{Name: "name"}},
 				Address: &schema.BlockAddrSchema{Steps: schema.Address{schema.StaticStep{Name: "data"}, schema.LabelStep{Index: 0}}, ScopeId: lang.ScopeId("data"), BodyAsData: true, InferBody: true},
 				Body: &schema.BodySchema{
-					Attributes: map[string]*schema.AttributeSchema{"id": {Constraint: str, IsOptional: true}, "n": {Constraint: num, IsOptional: true}},
+					Attributes: map[string]*schema.AttributeSchema{
+						// also addressable on its own: a position inside it belongs to a nested target of the block and to this one
+						"id": {Constraint: str, IsOptional: true, Address: &schema.AttributeAddrSchema{Steps: schema.Address{schema.StaticStep{Name: "zed"}, schema.AttrNameStep{}}, AsReference: true, ScopeId: lang.ScopeId("zed")}},
+						"n":  {Constraint: num, IsOptional: true}},
 					Blocks: map[string]*schema.BlockSchema{
 						"lst": {Type: schema.BlockTypeList, Body: &schema.BodySchema{Attributes: map[string]*schema.AttributeSchema{"v": {Constraint: str, IsOptional: true}}}},
 						"obj": {Type: schema.BlockTypeObject, Body: &schema.BodySchema{Attributes: map[string]*schema.AttributeSchema{"w": {Constraint: num, IsOptional: true}}}},
@@ -432,6 +518,21 @@ func verifSeedList() []verifSeed {
 		{"pv-alias-ref", "pv \"a\" {\n  alias = var.x\n}\n", 2},
 		{"pw-noalias", "pw \"a\" {\n}\n", 2},
 		{"pw-alias", "pw \"a\" {\n  alias = \"east\"\n}\n", 2},
+		{"be-s3", "be \"s3\" {\n  bucket = \"b\"\n}\n", 2},
+		{"be-s3-special", "be \"s3\" {\n  backend = \"special\"\n  special_opt = \"o\"\n}\n", 2},
+		{"be-s3-other", "be \"s3\" {\n  backend = \"other\"\n  bucket = \"b\"\n}\n", 2},
+		{"be-gcs", "be \"gcs\" {\n  note = \"n\"\n}\n", 2},
+		{"two-ab", "two {\n  kind = \"a\"\n  mode = \"b\"\n  ab_opt = \"x\"\n}\n", 2},
+		{"two-ac-swapped", "two {\n  mode = \"c\"\n  kind = \"a\"\n  ac_opt = \"x\"\n}\n", 2},
+		{"two-default", "two {\n  kind = \"a\"\n  ab_opt = \"x\"\n}\n", 2},
+		{"two-none", "two {\n}\n", 2},
+		{"mod-two", "mod \"m\" {\n  source = \"./m\"\n  input = \"i\"\n}\nmod \"m\" {\n  source = \"./n\"\n  input = \"i\"\n}\n", 2},
+		{"mod-two-swapped", "mod \"m\" {\n  source = \"./n\"\n  other = \"o\"\n}\nmod \"m\" {\n  source = \"./m\"\n  other = \"o\"\n}\n", 2},
+		{"onerefs", "onerefs = [ var.foo, var.bar, var.foo ]\n", 0},
+		{"aobj-paren-key", "aobj = { (\"a\") = var.foo }\n", 0},
+		{"call-noparams-nested", "astr = f1( f0( ) )\n", 0},
+		{"data-refs", "data \"d\" {\n  id = \"i\"\n  n = 1\n}\nout \"o\" {\n  value = data.d.id\n  deps = [ zed.id ]\n}\n", 2},
+		{"opt-member", "opt \"o\" {\n  x = var.foo\n  member {\n    who = var.foo\n  }\n}\n", 2},
 		{"mod-dep", "mod \"m\" {\n  source = \"./m\"\n  input = \"i\"\n}\n", 2},
 		{"mod-nodep", "mod \"m\" {\n  source = \"./other\"\n  input = \"i\"\n}\n", 2},
 		{"variable", "variable \"v\" {\n  type = list(string)\n  default = [ \"a\" ]\n}\n", 2},
